@@ -356,6 +356,8 @@ RULES = [
     ("C11-R3", "lexer keyword table agrees with the operator/keyword/root-option vocabularies", r3),
     ("C11-R4", "case discipline of keyword comparisons in the parser", r4),
     ("C11-R5", "optional tokens and bracket styles", r5),
+    ("C03-R7", "`not like` / `not <op>`: infix NOT negates the operator [shared with C03]", lambda ctx: __import__("c03").r7(ctx)),
+    ("C03-R1", "`notlike` vs `not like`, `!=` vs `not =`: the negation table pairs each operator with its documented negative [shared with C03]", lambda ctx: __import__("c03").r1(ctx)),
 ]
 
 EXPLANATION = (
